@@ -320,3 +320,62 @@ def no_arithmetic_on_figures(ctx, clause):
                               "%s of the new statement is computed: `%s` (two instance sets are summed although one instance can be in "
                               "both: the ratio can exceed 100 %%)" % (field, norm(v)[:80])))
     return obs
+
+
+def class_iteration_agreement(ctx, clause):
+    """Numerator and denominator range over the same classes: every loop over 'the classes of an instance' - the class
+    list of an instance entry (`...[POS_CLASSES]`, or the list paired with the instance by `.items()` of the instances
+    dictionary) - iterates that list itself.  A site that first filters, de-duplicates or re-orders it while the others do
+    not makes the instance count (denominator) and the feature counts (numerators) disagree for the same instance."""
+    p = ctx.p
+    sites = []
+    for f in p.funcs.values():
+        if not f.module.name.startswith("shexer.core.profiling") or not ctx.reachable(f):
+            continue
+        pair_lists = set()        # names bound as the second element of `for k, v in <instances dict>.items()`
+        for x in walk_own(f.node):
+            if isinstance(x, ast.For) and isinstance(x.target, ast.Tuple) and len(x.target.elts) == 2 and isinstance(x.iter, ast.Call) \
+                    and isinstance(x.iter.func, ast.Attribute) and x.iter.func.attr == "items" and "i_dict" in norm(x.iter.func.value).replace("instances_dict", "i_dict"):
+                if isinstance(x.target.elts[1], ast.Name):
+                    pair_lists.add(x.target.elts[1].id)
+        for x in walk_own(f.node):
+            its = []
+            if isinstance(x, ast.For):
+                its.append(x.iter)
+            if isinstance(x, (ast.ListComp, ast.SetComp, ast.GeneratorExp, ast.DictComp)):
+                its += [g.iter for g in x.generators]
+            for it in its:
+                inner = it
+                wrappers = []
+                while isinstance(inner, ast.Call) and inner.args:
+                    wrappers.append(norm(inner.func))
+                    inner = inner.args[0]
+                is_cls = False
+                if isinstance(inner, ast.Subscript):
+                    try:
+                        is_cls = p.fold(f.module, inner.slice) == 0 and "dict" in norm(inner.value)
+                    except Exception:
+                        is_cls = False
+                    if is_cls and not (isinstance(inner.slice, ast.Name) and "CLASS" in inner.slice.id):
+                        is_cls = False
+                if isinstance(inner, ast.Name) and inner.id in pair_lists:
+                    is_cls = True
+                if is_cls:
+                    sites.append((f, it, tuple(wrappers)))
+    obs = []
+    shapes = {}
+    for _, _, w in sites:
+        shapes[w] = shapes.get(w, 0) + 1
+    major = max(shapes, key=lambda k: (shapes[k], k == ())) if shapes else ()
+    for f, it, w in sites:
+        ok = len(shapes) == 1 or w == major      # relative rule: all sites agree (whatever they do to the list)
+        key = "R-COUNT|class-iteration|%s|%s" % (f.short, f.key(it)[:50])
+        if any(o.key == key for o in obs):
+            continue
+        obs.append(Ob(clause, "R-COUNT", key, f.loc(it), ok,
+                      "%s iterates the class list of the instance like the other %d sites" % (f.short, len(sites) - 1) if ok else
+                      "%s iterates `%s` (%s) while %d other site(s) iterate %s: instance counts and feature counts are no longer "
+                      "taken over the same classes of an instance" % (
+                          f.short, norm(it)[:60], "through " + "/".join(w) if w else "the list itself", shapes[major],
+                          "the list through " + "/".join(major) if major else "the list itself")))
+    return obs, len(sites)
